@@ -404,8 +404,7 @@ pub fn encode_with_fixed_block_size<T: Source>(
     // only one frame that is shorter than `block_size`.
     stream
         .stream_info_mut()
-        .set_block_sizes(block_size, block_size)
-        .unwrap();
+        .set_block_sizes(block_size, block_size)?;
 
     let worker_count = determine_worker_count(&config)?;
     let parbuf = Arc::new(ParFrameBuf::new(
